@@ -123,7 +123,6 @@ func TestVerifBlockIdentityBodies(t *testing.T) {
 		blk     *types.Block
 		txs     []*types.Tx // 1-based: txs[i-1]; txs[n] is the foreign transaction
 		id      []byte
-		stateOK bool
 	}
 	built := map[int]*genuine{}
 	build := func(n int) *genuine {
@@ -185,6 +184,7 @@ func TestVerifBlockIdentityBodies(t *testing.T) {
 		}
 		var trail []string
 		forgedSeen := "" // kinds of the forged copies delivered so far
+		tainted := false // a violation was reported for an earlier arrival: only the property is evaluated from here on
 		for k, st := range sq.Steps {
 			blk := CloneBlock(g.blk) // the announced identifier (Hash field) is the genuine one in every copy
 			var body []*types.Tx
@@ -243,7 +243,8 @@ func TestVerifBlockIdentityBodies(t *testing.T) {
 				res.Violate(sig("forged-connected"), replay,
 					"a copy of block %s (%d transactions) with %s body %v%s under the genuine identifier was accepted (error: %v; stored under the identifier: %s body); arrivals %v",
 					g.blk.ID(), sq.N, st.It.Kind, st.It.Body, field, derr, connBody, trail)
-			case st.It.Kind != "genuine" && bad && !st.Bad:
+			case st.It.Kind != "genuine" && bad && !st.Bad && !tainted:
+				failed, tainted = false, true // go on: the genuine block is still to come
 				res.Violate(sig("genuine-id-cached-as-errored"), replay,
 					"a copy of block %s (%d transactions) with %s body %v%s was refused (%v) but left the identifier of the genuine block in the errored-blocks cache; arrivals %v",
 					g.blk.ID(), sq.N, st.It.Kind, st.It.Body, field, derr, trail)
@@ -251,6 +252,8 @@ func TestVerifBlockIdentityBodies(t *testing.T) {
 				res.Violate(sig("forged-block-poisons-genuine"), replay,
 					"the genuine block %s (%d transactions) is not connected when it arrives after forged copies (%s) with its identifier: %v (connected: %v, cached as errored: %v); arrivals %v",
 					g.blk.ID(), sq.N, forgedSeen, derr, connOn, bad, trail)
+			case tainted:
+				failed = false
 			case connOn != st.ConnOn || bad != st.Bad || accepted != (st.Res == "connected" || st.Res == "known"):
 				res.Violate(sig("nonconformance"), replay,
 					"chain service differs from BlockRecv.tla after arrival %d of %v: accepted %v (model: %s), connected %v (model %v), cached as errored %v (model %v)",
